@@ -6,7 +6,7 @@ use refmodel::ops::KP;
 use serde_json::json;
 use std::sync::Arc;
 
-fn from_impl(k: &KeyPath) -> KP {
+pub fn from_impl(k: &KeyPath) -> KP {
     match k {
         KeyPath::Index(i) => KP::Index(*i),
         KeyPath::Name(s) => KP::Name(crate::conv::safe_string(s)),
@@ -113,7 +113,7 @@ const ELEMS: [(&str, fn() -> KP); 28] = [
     ("\"A\"", || KP::QuotedName("A".into())),
 ];
 
-const TOKENS: [&[u8]; 14] = [b"{", b"}", b",", b"\"", b"\\", b"a", b"1", b"-", b"+", b"u", b" ", b"\xFF", b".", "é".as_bytes()];
+pub const TOKENS: [&[u8]; 14] = [b"{", b"}", b",", b"\"", b"\\", b"a", b"1", b"-", b"+", b"u", b" ", b"\xFF", b".", "é".as_bytes()];
 
 fn render(items: &[usize], ws: &dyn Fn(usize) -> &'static str) -> String {
     let mut s = String::new();
